@@ -78,7 +78,7 @@ def case_da(case, obs) -> None:
         kw = {"adapt_stat_target": float(rng.uniform(0.5, 0.95)), "log_step_size_reg_coefficient": float(10 ** rng.uniform(-2, 0)),
               "iter_decay_coeff": float(rng.uniform(0.55, 1.0)), "iter_offset": int(rng.integers(0, 30))}
     if rng.integers(0, 3) == 0:
-        kw["log_step_size_reg_target"] = float(rng.uniform(-3, 1))
+        kw["log_step_size_reg_target"] = float(rng.choice([0.0, -0.0, 1.0, float(rng.uniform(-3, 1)), float(rng.uniform(-3, 1))]))
     adapter = mici.adapters.DualAveragingStepSizeAdapter(log_step_size_reducer=reducers[reducer_name], **kw)
     delta = kw.get("adapt_stat_target", 0.8)
     gamma = kw.get("log_step_size_reg_coefficient", 0.05)
